@@ -25,3 +25,5 @@ import J2M.Props.C05
 import J2M.Props.C10
 import J2M.Props.C13
 import J2M.Props.C19
+import J2M.Cli
+import J2M.Runtime
